@@ -568,7 +568,7 @@ fn store_nvars(rng: &mut Rng, thorough: bool) -> usize {
 fn start_store(rng: &mut Rng, nvars: usize, rep: &mut Report) -> Result<Store, String> {
     #[cfg(feature = "frontend")]
     if rng.chance(1, 6) {
-        return replica_store(rng, nvars, rep);
+        return if rng.chance(1, 3) { replica_store_threaded(rng, nvars, rep) } else { replica_store(rng, nvars, rep) };
     }
     match rng.below(4) {
         0 | 1 => {
@@ -639,6 +639,63 @@ fn replica_store(rng: &mut Rng, nvars: usize, rep: &mut Report) -> Result<Store,
     }
     // no further recv from here on; repair the book-keeping and use the replica as an ordinary store
     drop(producer);
+    replica.fix_import();
+    Store::adopt(replica, nvars)
+}
+
+/// as `replica_store`, but the producer computes on its own thread behind a bounded channel (capacity 0 to 4) and
+/// the replica starts polling late: a full channel has to stall the producer, never to lose a node
+#[cfg(feature = "frontend")]
+fn replica_store_threaded(rng: &mut Rng, nvars: usize, rep: &mut Report) -> Result<Store, String> {
+    rep.count("stores_from_channel_replica_threaded_bounded", 1);
+    let cap = *rng.pick(&[0usize, 1, 2, 4]);
+    let (s, r) = crossbeam_channel::bounded::<BddNode>(cap);
+    let mut prng = rng.fork(7);
+    let nops = rng.range(5, 40);
+    let late_us = rng.below(4) as u64 * 500;
+    let handle = std::thread::spawn(move || -> Result<Vec<BddNode>, String> {
+        let mut producer = Store::new(nvars);
+        producer.bdd = Bdd::with_sender(s);
+        for _ in 0..nops {
+            let op = loop {
+                let op = producer.random_op(&mut prng);
+                if !matches!(op, Op::Reimport | Op::Rebuild) {
+                    break op;
+                }
+            };
+            producer.apply(&op)?;
+        }
+        Ok(producer.bdd.nodes.clone())
+    });
+    let mut replica = Bdd::with_receiver(r);
+    std::thread::sleep(std::time::Duration::from_micros(late_us));
+    let mut last_len = replica.nodes.len();
+    let mut last_progress = std::time::Instant::now();
+    while !handle.is_finished() {
+        let len = replica.nodes.len();
+        let h = match rng.below(3) {
+            0 => len,
+            1 => len + rng.below(3),
+            _ => usize::MAX,
+        };
+        replica.recv(Term(h));
+        if replica.nodes.len() != last_len {
+            last_len = replica.nodes.len();
+            last_progress = std::time::Instant::now();
+        } else if last_progress.elapsed().as_secs() >= 20 {
+            // (one operation takes microseconds: bounded progress with > 10^6-fold head-room; the thread is left behind)
+            return Err(format!("producer behind a channel of capacity {} made no progress for 20 s although the replica kept polling ({} entries arrived)", cap, last_len));
+        }
+        if rng.chance(1, 4) {
+            std::thread::yield_now();
+        }
+    }
+    let produced = handle.join().map_err(|_| "producer thread panicked".to_string())??;
+    replica.recv(Term(usize::MAX));
+    if replica.nodes != produced {
+        return Err(format!("replica behind a channel of capacity {} holds {} entries, producer {}{}", cap, replica.nodes.len(), produced.len(),
+            if replica.nodes.len() <= produced.len() && replica.nodes[..] == produced[..replica.nodes.len()] { " (a prefix)" } else { " (not a prefix)" }));
+    }
     replica.fix_import();
     Store::adopt(replica, nvars)
 }
@@ -1162,6 +1219,22 @@ fn c13_tall(cfg: &Cfg, rep: &mut Report, case_seed: u64) {
     let mut handles = pool.clone();
     handles.sort();
     handles.dedup();
+    // cold depth queries first (see the small stores): before any counting query has filled the count cache
+    for t in handles.iter().rev() {
+        match guarded(SMALL_BUDGET, || bdd.max_depth(*t)) {
+            Ok(d) => {
+                rep.count("cold_depths_checked", 1);
+                if d != facts.depth[t.value()] {
+                    rep.violation("max-depth-wrong", format!("max_depth({}) asked before any counting query = {}, longest root-to-leaf path has {} tests", t, d, facts.depth[t.value()]), replay(format!("cold max_depth({})", t), &log));
+                    return;
+                }
+            }
+            Err(c) => {
+                rep.violation(&format!("depth:{}", c.kind()), c.describe(), replay(format!("cold max_depth({})", t), &log));
+                return;
+            }
+        }
+    }
     for t in handles {
         rep.count("handles_queried", 1);
         let sat = facts.sat[t.value()];
@@ -1264,6 +1337,44 @@ fn c13_queries(cfg: &Cfg, rep: &mut Report, case_seed: u64, run: StoreRun) {
         hs
     };
     let total: u128 = 1u128 << nvars;
+    // cold queries first: depth (and, in half of the cases, memoised model counts) of every handle BEFORE any other
+    // counting query has had the chance to fill the count cache - in builds without ad-hoc counting these take
+    // the uncached code paths
+    let mut cold: Vec<Term> = handles.clone();
+    rng.shuffle(&mut cold);
+    let cold_models = rng.bool() && (!cfg!(feature = "adhoccounting") || cfg!(feature = "adhoccountmodels"));
+    for t in &cold {
+        match guarded(SMALL_BUDGET, || bdd.max_depth(*t)) {
+            Ok(d) => {
+                rep.count("cold_depths_checked", 1);
+                if d != facts.depth[t.value()] {
+                    rep.violation("max-depth-wrong", format!("max_depth({}) asked before any counting query = {}, longest root-to-leaf path has {} tests", t, d, facts.depth[t.value()]), replay(format!("cold max_depth({})", t)));
+                    return;
+                }
+            }
+            Err(c) => {
+                rep.violation(&format!("max_depth:{}", c.kind()), c.describe(), replay(format!("cold max_depth({})", t)));
+                return;
+            }
+        }
+        if cold_models {
+            let sat = facts.tt_of(*t).count_ones() as u128;
+            match guarded(SMALL_BUDGET, || bdd.models(*t, true)) {
+                Ok(m) => {
+                    rep.count("cold_memoised_model_counts_checked", 1);
+                    let (c, mm) = mc(m);
+                    if c + mm == 0 || mm * (total - sat) != c * sat {
+                        rep.violation("models-ratio-wrong", format!("models({}, true) asked before any path query = {:?} but {} of {} assignments satisfy the function", t, m, sat, total), replay(format!("cold models({},true)", t)));
+                        return;
+                    }
+                }
+                Err(c) => {
+                    rep.violation(&format!("models:{}", c.kind()), c.describe(), replay(format!("cold models({},true)", t)));
+                    return;
+                }
+            }
+        }
+    }
     for t in &handles {
         let tt = facts.tt_of(*t);
         let sat = tt.count_ones() as u128;
